@@ -785,6 +785,12 @@ class Interp(object):
                 return default
             if v.attrs.get('__open__'):
                 raise Unsupported('attribute %s of open object %s' % (name, v.cls))
+            if getattr(v, 'repo_class', None) is not None and not v.attrs.get('__complete__'):
+                # a partial view of an instance of a real class: an attribute that real instances do (or may)
+                # have but the view does not model is out of reach (UNDECIDED); only when the class never
+                # defines or assigns it is the access an AttributeError of the code under verification
+                if v.repo_class.instances_have(name) is not False:
+                    raise Unsupported('attribute %s is outside the view of %s given by the contract' % (name, v.cls))
             raise PyExc('AttributeError', "'%s' object has no attribute '%s'" % (v.cls, name))
         if isinstance(v, ModuleRef):
             return module_attr(v, name)
